@@ -1,4 +1,4 @@
-import Verif.Proofs.Update
+import Verif.Proofs.UpdatePaths
 /-!
 # C27 — accepted contract updates keep existing stored data usable
 
@@ -6,14 +6,18 @@ Model: `Verif.Model.Update` (port of `stdlib/contract_update_validation.go` + `t
 spec: `Verif.Spec.Update` (canonical type names, declaration environment, stored values and their
 typing).  `validate an old new = []` is "the update is accepted".
 
-Full-strength statement (DESIGN §6 C27), not yet proved in this generality:
+The main theorem is `values_stay_typed_partial`: if the validator accepts, every stored value (arbitrarily
+nested composites, enums, interface-typed positions, optionals, arrays, dictionaries) that is well typed
+under the old declarations and whose composite / enum types are still declared is well typed under the
+new ones.  Full-strength statement (DESIGN §6 C27):
 
   values_stay_typed : validate an old new = [] → hasType ⟨oldRoot, oldImports⟩ v t →
       pathsLive newRoot v → hasType ⟨newRoot, newImports⟩ v t
 
-What is proved below is the part of it that concerns every pair of declarations the validator compares
-(`_partial`: the induction over the path from the root to a nested declaration and over the value is
-missing; the import maps of both versions are assumed to agree on every name).
+`_partial` because of two hypotheses that the validator itself does not establish: the import maps of
+both versions agree on every identifier (`himp`; the comparator only compares the locations of the
+identifiers it meets), and the new program declares no two nested types with the same identifier at
+one level (`NoDupNames`; the checker rejects such a program before the validator runs).
 -/
 namespace Verif.Properties.C27
 open Verif.Model.Update Verif.Spec.Update Verif.Proofs.Update
@@ -73,18 +77,140 @@ theorem missing_declaration_needs_pragma (c : Cmp) (old new : Decl) (h : checkDe
     simpa using hc
   · simp at hm
 
+/-- Every pair of declarations reached by the same path of identifiers in the old and the new root is
+compatible (induction over the path, through the three loops of `checkNestedDeclarations`). -/
+theorem accepted_tree_compatible_partial (an : AccountNames) (old new : Program) (o n : Decl)
+    (ho : old.root = some o) (hn : new.root = some n)
+    (himp : ∀ x, lookupLast x (collectImports an old) = lookupLast x (collectImports an new))
+    (hnd : NoDupNames n) (h : validate an old new = []) :
+    PathCompat ⟨n.name, collectImports an old⟩ ⟨n.name, collectImports an new⟩ o n := by
+  simp only [validate, ho, hn] at h
+  exact pathCompat_of_ok _ n.name rfl himp o n h hnd
+
+/-- An interface declared in the old contract is still declared after an accepted update (a
+`#removedType` pragma does not excuse it). -/
+theorem interface_never_removed (an : AccountNames) (old new : Program) (o n : Decl)
+    (ho : old.root = some o) (hn : new.root = some n) (h : validate an old new = [])
+    (x : String) (j : Decl) (hj : child o x = some j) (hk : j.kind.isInterface = true) :
+    ∃ j', child n x = some j' := by
+  simp only [validate, ho, hn] at h
+  exact iface_live _ o n (checkDecl_nil _ o n h) x j hj hk
+
+/-- **Stored values stay typed.**  If the update is accepted, a value well typed under the old version
+— composites with the fields their declaration lists, enums with a raw value in range, values at
+intersection types `{I, J}` by (transitive) conformance, optionals, arrays, dictionaries of them — whose
+composite / enum types are still declared (`pathsLive`: not removed by a `#removedType` pragma) is well
+typed, at the same type, under the new version: every field the new declaration lists is present with a
+value of the declared type, the raw value is still in range, every interface conformed to (directly or
+through interfaces) is still conformed to.  Partial: `himp`, `hnd` (see the header). -/
+theorem values_stay_typed_partial (an : AccountNames) (old new : Program) (o n : Decl)
+    (ho : old.root = some o) (hn : new.root = some n)
+    (himp : ∀ x, lookupLast x (collectImports an old) = lookupLast x (collectImports an new))
+    (hnd : NoDupNames n) (h : validate an old new = [])
+    (v : Val) (t : CTy) (hv : hasType ⟨o, collectImports an old⟩ v t) (hl : pathsLive n v) :
+    hasType ⟨n, collectImports an new⟩ v t := by
+  have hpc := accepted_tree_compatible_partial an old new o n ho hn himp hnd h
+  have hname : o.name = n.name := (hpc [] o n rfl rfl).name
+  refine hasType_pres ⟨o, collectImports an old⟩ ⟨n, collectImports an new⟩ ?_ ?_ v t hv hl
+  · simpa [Env.scope, hname] using hpc
+  · intro x j hj hk
+    exact interface_never_removed an old new o n ho hn h x j hj hk
+
+/-- Enum values keep their meaning: after an accepted update the raw value of every case of a still
+declared enum (at any path) denotes the same case. -/
+theorem enum_meaning_stable_partial (an : AccountNames) (old new : Program) (o n : Decl)
+    (ho : old.root = some o) (hn : new.root = some n)
+    (himp : ∀ x, lookupLast x (collectImports an old) = lookupLast x (collectImports an new))
+    (hnd : NoDupNames n) (h : validate an old new = [])
+    (p : List String) (raw : Nat) (name : String)
+    (hc : enumCase ⟨o, collectImports an old⟩ p raw = some name) (hlive : lookupPath n p ≠ none) :
+    enumCase ⟨n, collectImports an new⟩ p raw = some name := by
+  have hpc := accepted_tree_compatible_partial an old new o n ho hn himp hnd h
+  unfold enumCase at hc ⊢
+  simp only at hc ⊢
+  cases hod : lookupPath o p with
+  | none => simp [hod] at hc
+  | some od =>
+    cases hndl : lookupPath n p with
+    | none => exact absurd hndl hlive
+    | some nd =>
+      simp only [hod] at hc
+      obtain ⟨t, ht⟩ := (hpc p od nd hod hndl).cases
+      have hlt : raw < od.cases.length := by
+        rcases Nat.lt_or_ge raw od.cases.length with hlt | hge
+        · exact hlt
+        · rw [List.getElem?_eq_none hge] at hc; simp at hc
+      simp only [← ht, List.getElem?_append_left hlt]
+      exact hc
+
 /-! ### non-vacuity -/
 
-private def sS : Decl := .mk .structure "S" [⟨"a", .nominal ⟨"Int", []⟩⟩, ⟨"b", .nominal ⟨"C", ["T"]⟩⟩] [⟨"I", []⟩] [] [] none [] [] []
-private def sS' : Decl := .mk .structure "S" [⟨"b", .nominal ⟨"T", []⟩⟩] [⟨"C", ["I"]⟩, ⟨"J", []⟩] [] [] none [] [] []
+private def iI : Decl := .mk .structureInterface "I" [] [] [] [] none [] [] []
+private def iJ : Decl := .mk .structureInterface "J" [] [⟨"I", []⟩] [] [] none [] [] []
+private def iJ' : Decl := .mk .structureInterface "J" [] [] [] [] none [] [] []
+private def sS : Decl := .mk .structure "S" [⟨"a", .nominal ⟨"Int", []⟩⟩, ⟨"b", .nominal ⟨"C", ["T"]⟩⟩] [⟨"J", []⟩] [] [] none [] [] []
+private def sS' : Decl := .mk .structure "S" [⟨"b", .nominal ⟨"T", []⟩⟩] [⟨"C", ["J"]⟩, ⟨"K", []⟩] [] [] none [] [] []
 private def eE : Decl := .mk .enum "E" [] [⟨"UInt8", []⟩] ["a", "b"] [] none [] [] []
 private def eE' : Decl := .mk .enum "E" [] [⟨"UInt8", []⟩] ["a", "b", "c"] [] none [] [] []
-private def cOld : Decl := .mk .contract "C" [] [] [] [] none [sS, eE] [] []
-private def cNew : Decl := .mk .contract "C" [] [] [] [] none [eE', sS'] [] []
-private def cBad : Decl := .mk .contract "C" [] [] [] [] none [.mk .enum "E" [] [⟨"UInt8", []⟩] ["b", "a"] [] none [] [] [], sS] [] []
+private def tT : Decl := .mk .structure "T" [⟨"e", .nominal ⟨"E", []⟩⟩] [] [] [] none [] [] []
+private def cOld : Decl := .mk .contract "C" [] [] [] [] none [sS, eE, tT] [] [iI, iJ]
+private def cNew : Decl := .mk .contract "C" [] [] [] [] none [eE', tT, sS'] [] [iJ, iI]
+private def cBad : Decl := .mk .contract "C" [] [] [] [] none [.mk .enum "E" [] [⟨"UInt8", []⟩] ["b", "a"] [] none [] [] [], sS, tT] [] [iI, iJ]
+/-- the interface `J` drops its conformance to `I` (accepted before fix 5d4d335 of /repo) -/
+private def cBadIface : Decl := .mk .contract "C" [] [] [] [] none [sS, eE, tT] [] [iI, iJ']
 
 example : validate [] ⟨[], some cOld⟩ ⟨[], some cNew⟩ = [] := by decide
 example : validate [] ⟨[], some cOld⟩ ⟨[], some cBad⟩ = [.enumCaseMismatch, .enumCaseMismatch] := by decide
+example : validate [] ⟨[], some cOld⟩ ⟨[], some cBadIface⟩ = [.conformanceMismatch] := by decide
 example : typeEq ⟨some "C", [], []⟩ (.nominal ⟨"C", ["T"]⟩) (.optional (.nominal ⟨"T", []⟩)) = some .type := by decide
+
+/-- a stored `[{I}]` holding `S(a: …, b: T(e: E.b))`, where `S` conforms to `I` only through `J` -/
+private def stored : Val := .arr [.comp ["S"] ["a", "b"] [.prim "Int", .comp ["T"] ["e"] [.enumv ["E"] 1]]]
+
+example : hasType ⟨cOld, []⟩ stored (.varSized (.inter [.loc ["I"]])) := by
+  simp only [stored, hasType, allTyped]
+  refine Or.inl ⟨_, rfl, ⟨sS, by first | rfl | decide, by first | rfl | decide, ?_, Or.inr ⟨_, rfl, by first | rfl | decide, ?_⟩⟩, trivial⟩
+  · intro f hf
+    have : f = ⟨"a", .nominal ⟨"Int", []⟩⟩ ∨ f = ⟨"b", .nominal ⟨"C", ["T"]⟩⟩ := by simpa [sS, Decl.fields] using hf
+    rcases this with rfl | rfl
+    · exact Or.inl ⟨rfl, by simp only [hasType]; rfl⟩
+    · refine Or.inr (Or.inl ⟨rfl, ?_⟩)
+      simp only [hasType]
+      refine ⟨tT, by first | rfl | decide, by first | rfl | decide, ?_, Or.inl (by first | rfl | decide)⟩
+      intro g hg
+      have : g = ⟨"e", .nominal ⟨"E", []⟩⟩ := by simpa [tT, Decl.fields] using hg
+      subst this
+      refine Or.inl ⟨rfl, ?_⟩
+      simp only [hasType]
+      exact ⟨eE, by first | rfl | decide, by first | rfl | decide, by first | rfl | decide, by first | rfl | decide⟩
+  · intro i hi
+    have : i = .loc ["I"] := by simpa using hi
+    subst this
+    exact .via ⟨"J", []⟩ "J" iJ (by first | rfl | decide) (by first | rfl | decide) (by first | rfl | decide) (by first | rfl | decide)
+      (.direct ⟨"I", []⟩ (by first | rfl | decide) (by first | rfl | decide))
+
+example : pathsLive cNew stored := by
+  simp only [stored, pathsLive, allLive]
+  exact ⟨⟨by decide, ⟨trivial, ⟨by decide, ⟨by decide, trivial⟩⟩, trivial⟩⟩, trivial⟩
+
+example : NoDupNames cNew := by
+  intro p d hp
+  match p, hp with
+  | [], hp => simp [lookupPath] at hp; subst hp; decide
+  | [x], hp =>
+    obtain ⟨c, hc, hp'⟩ := lookupPath_cons hp
+    simp [lookupPath] at hp'; subst hp'
+    have := (child_some hc).1
+    simp [cNew, Decl.composites, Decl.attachments, Decl.interfaces] at this
+    rcases this with rfl | rfl | rfl | rfl | rfl <;> decide
+  | x :: y :: q, hp =>
+    obtain ⟨c, hc, hp'⟩ := lookupPath_cons hp
+    obtain ⟨c', hc', _⟩ := lookupPath_cons hp'
+    have := (child_some hc).1
+    simp [cNew, Decl.composites, Decl.attachments, Decl.interfaces] at this
+    have h2 := (child_some hc').1
+    rcases this with rfl | rfl | rfl | rfl | rfl <;> simp [eE', tT, sS', iJ, iI, Decl.composites, Decl.attachments, Decl.interfaces] at h2
+
+example : enumCase ⟨cOld, []⟩ ["E"] 1 = some "b" := by decide
 
 end Verif.Properties.C27
